@@ -277,6 +277,12 @@ func (r *StaticEndpointRepository) validateEndpointConfig(cfg config.EndpointCon
 		return fmt.Errorf("check_interval too short: minimum %v, got %v", MinHealthCheckInterval, cfg.CheckInterval)
 	}
 
+	// zero was replaced by the default before validation; what is left below zero is a typo that
+	// would make every probe expire before it is sent and keep the endpoint offline for good
+	if cfg.CheckTimeout < 0 {
+		return fmt.Errorf("check_timeout must be positive, got %v", cfg.CheckTimeout)
+	}
+
 	if cfg.CheckTimeout >= cfg.CheckInterval {
 		return fmt.Errorf("check_timeout (%v) must be less than check_interval (%v)", cfg.CheckTimeout, cfg.CheckInterval)
 	}
